@@ -29,6 +29,38 @@ fn integrator_faces(inp: &Input) -> String {
     .unwrap_or_else(|e| e)
 }
 
+/// copies: `Clone` is part of the public API of `VoronoiIntegrator` and `ConvexCell`; whatever is computed from a copy (of the
+/// integrator, possibly on another thread, or of a single cell) must be what is computed from the original:
+/// `CL <integrator copy> <cell copies>` (1 = bitwise the same)
+fn clone_routes(inp: &Input) -> String {
+    use meshless_voronoi::integrals::AreaCentroidIntegral;
+    let inp = inp.clone();
+    guarded(move || {
+        let vi = meshless_voronoi::VoronoiIntegrator::build(&inp.gens, None, inp.anchor, inp.width, inp.dimensionality(), inp.periodic);
+        let faces = |vi: &meshless_voronoi::VoronoiIntegrator<_>| -> String {
+            let mut s = crate::ser::voronoi(&Voronoi::from(vi));
+            for f in vi.compute_face_integrals::<AreaCentroidIntegral>() {
+                s.push_str(&format!(" {} {} {}", crate::ser::face_header(&f), crate::proto::fx(f.integral().area), crate::proto::v3(f.integral().centroid)));
+            }
+            s
+        };
+        let a = faces(&vi);
+        let copy = vi.clone();
+        let b = std::thread::spawn(move || faces(&copy)).join().unwrap_or_default();
+        let mut cells_same = true;
+        for c in vi.cells_iter() {
+            let x = c.compute_face_integrals::<(), AreaCentroidIntegral>(());
+            let y = c.clone().compute_face_integrals::<(), AreaCentroidIntegral>(());
+            let tok = |fs: &Vec<meshless_voronoi::integrals::FaceIntegrator<AreaCentroidIntegral>>| -> String { fs.iter().map(|f| format!("{} {} {}", crate::ser::face_header(f), crate::proto::fx(f.integral().area), crate::proto::v3(f.integral().centroid))).collect::<Vec<_>>().join(" ") };
+            if tok(&x) != tok(&y) {
+                cells_same = false;
+            }
+        }
+        format!("CL {} {}", (a == b) as u8, cells_same as u8)
+    })
+    .unwrap_or_else(|_| "CL P P".to_string())
+}
+
 pub fn run(out: &mut Out, rng: &mut Rng, thorough: bool) {
     let reps = if thorough { 12 } else { 2 };
     for _ in 0..reps {
@@ -67,7 +99,7 @@ pub fn run(out: &mut Out, rng: &mut Rng, thorough: bool) {
                         c.anchor.y = -0.5;
                         c.width.y = 1.;
                     }
-                    out.rec("lowdim", &a.family, &format!("{} B {}", a.tokens(), b.tokens()), &format!("A {} B {} C {} I {}", vor(&a), vor(&b), vor(&c), integrator_faces(&a)));
+                    out.rec("lowdim", &a.family, &format!("{} B {}", a.tokens(), b.tokens()), &format!("A {} B {} C {} I {} {}", vor(&a), vor(&b), vor(&c), integrator_faces(&a), clone_routes(&a)));
                 }
             }
         }
